@@ -20,9 +20,9 @@ from fractions import Fraction
 import vlib
 
 PROPERTY = "C12"
-LEAN_MODULES = ["TapkeeVerif.Props.C12"]
-if os.path.exists(os.path.join(vlib.LEAN_DIR, "TapkeeVerif", "Props", "C12b.lean")):
-    LEAN_MODULES.append("TapkeeVerif.Props.C12b")
+# Props/C12b.lean: corollaries that transport OTHER properties' theorems (C02, C04, Spectral) along a permutation;
+# a separate module so that a temporarily broken upstream file cannot break the main module
+LEAN_MODULES = ["TapkeeVerif.Props.C12", "TapkeeVerif.Props.C12b"]
 LEAN_EXES = ["model_c12"]
 REQUIRED_THEOREMS = [
     "TapkeeVerif.C12.sqDist_perm",
@@ -44,8 +44,8 @@ ENV = {"OMP_NUM_THREADS": "1"}
 FLAGS = [f for f in vlib.HARNESS_FLAGS if f not in ("-O1", "-g")] + ["-O0", "-g1"]
 
 # declared tolerances (all comparisons are made in exact rational arithmetic on the printed dyadics)
-EPS_DIST = 30     # embedded squared distances agree within 2^-30 of the largest one
-EPS_PRE = 30      # matrices handed to the eigensolver agree within 2^-30 of their largest entry
+EPS_DIST = 22     # embedded squared distances agree within 2^-22 of the largest one
+EPS_PRE = 26      # matrices handed to the eigensolver agree within 2^-26 of their largest entry
 GAP_MIN = Fraction(1, 2 ** 8)   # relative eigengap below which eigenvectors are not determined well enough
 
 KNN = ["klle", "npe", "kltsa", "lltsa", "hlle", "le", "lpp", "isomap"]
